@@ -20,7 +20,7 @@
     (oracle: what a parse delivers on a given pass), CPython's [float()]. *)
 From Coq Require Import List Ascii String ZArith Bool.
 From Shexer Require Import Lib.PyStr Lib.Dict Gen.Consts Spec.Rdf Model.Tracker Model.Profiler
-     Model.Tokens Model.Freq Model.Shexing Model.SerialShexc Model.Run.
+     Model.Tokens Model.Freq Model.Shexing Model.ShexingFix Model.SerialShexc Model.Run.
 Import ListNotations.
 
 (** ** outcomes *)
@@ -725,7 +725,13 @@ Fixpoint graph_of_m (l : list mtriple) : option graph :=
 Section Run2.
   Variable fa : FreqAlg.
 
-  (** [Run.run_shapes] with the instance pass over [g1] and the feature pass over [g2] *)
+  (** [Run.run_shapes] with the instance pass over [g1] and the feature pass over [g2],
+      the shexing stage in the order the code has ([ShexingFix.shex_cur], selected by the
+      generated flag [Gen.Consts.c_clean_before_merge]).  The order matters here: an rdflib
+      channel re-labels blank nodes on every pass, so a class WITH instances can lose its
+      typing constraint in the feature pass, be empty at the threshold and still be
+      referenced (Props/C08.v: [C08_two_streams_order_refuted]).  [run_shapes2 c thr g g]
+      is [RunCur.run_shapes_cur c thr g] by reflexivity. *)
   Definition run_shapes2 (c : rcfg) (thr : F fa) (g1 g2 : graph) : (nsdict * list shape) + rerr :=
     match full_ns c with
     | None => inr RERandom
@@ -737,7 +743,7 @@ Section Run2.
         | inr PEAttr => inr REAttr
         | inr PEType => inr REType
         | inl (P, C, _) =>
-          match shex fa (scfg_of c ns) thr P C with
+          match shex_cur fa (scfg_of c ns) thr P C with
           | inr e => inr (rerr_of_s e)
           | inl shapes => inl (ns, shapes)
           end
